@@ -1,16 +1,18 @@
 """C19 — text and DOT renderings are faithful to the objects they show (structural clauses)."""
 from ..mir import Callee, Resolver, fmt, literals, walk, strip_sites as s, EXIT
 from . import prune
+from . import helpers
 from .prune import is_call
 
 LEVEL = 'other'
 RULES = {
+    'C19.R5': helpers.RULE_TEXT,
     'C19.R1': 'write_lincomb prints each coefficient next to the index it was enumerated with before any reordering; the position counter is only used for the skip test',
     'C19.R2': 'omissions are marked: a row/coefficient is skipped only on the skip-range test, and the first skip writes the ellipsis',
     'C19.R3': 'one scale: write_inequality divides the row and the bias by the same max|coeff|, only when not all-zero; tautology symbols follow bias >= 0; write_float prints sign and magnitude of the same value',
     'C19.R4': 'one statement per node and edge: Dot prints n{idx} with the node\'s own function/predicate by its leaf flag and every edge\'s own source, target and label; Display iterates the nodes once',
 }
-FLOORS = {'C19.R1': 1, 'C19.R2': 3, 'C19.R3': 4, 'C19.R4': 7}
+FLOORS = {'C19.R5': 5, 'C19.R1': 1, 'C19.R2': 3, 'C19.R3': 4, 'C19.R4': 7}
 EXPLANATION = 'Provenance rules on what is handed to the formatting machinery.'
 DOES_NOT_DECIDE = 'that the digits equal the stored values at the printed precision (core::fmt), layout'
 
@@ -37,6 +39,7 @@ def comp(e, *path):
 
 
 def run(ctx):
+    helpers.run_for(ctx)
     F = ctx.facts
     lincomb(ctx, F)
     for q, inner, rng in (('write_poly', 'write_inequality', 'skip_rows'), ('write_func', 'write_affcomb', 'skip_rows')):
